@@ -40,16 +40,19 @@ Definition take_number_at_most (n : nat) (s : list N) : option (Z * list N) :=
 
 (* the fields collected by the parsers (datetime struct); [pam]: an AM/PM marker was read (it is never used) *)
 Record pst := { py : option Z; pmo : option Z; pd : option Z; ph : option Z; pmi : option Z; psec : option Z;
-                pus : option Z; pam : bool }.
-Definition pst0 : pst := {| py := None; pmo := None; pd := None; ph := None; pmi := None; psec := None; pus := None; pam := false |}.
-Definition set_y v s := {| py := Some v; pmo := pmo s; pd := pd s; ph := ph s; pmi := pmi s; psec := psec s; pus := pus s; pam := pam s |}.
-Definition set_mo v s := {| py := py s; pmo := Some v; pd := pd s; ph := ph s; pmi := pmi s; psec := psec s; pus := pus s; pam := pam s |}.
-Definition set_d v s := {| py := py s; pmo := pmo s; pd := Some v; ph := ph s; pmi := pmi s; psec := psec s; pus := pus s; pam := pam s |}.
-Definition set_h v s := {| py := py s; pmo := pmo s; pd := pd s; ph := Some v; pmi := pmi s; psec := psec s; pus := pus s; pam := pam s |}.
-Definition set_mi v s := {| py := py s; pmo := pmo s; pd := pd s; ph := ph s; pmi := Some v; psec := psec s; pus := pus s; pam := pam s |}.
-Definition set_s v s := {| py := py s; pmo := pmo s; pd := pd s; ph := ph s; pmi := pmi s; psec := Some v; pus := pus s; pam := pam s |}.
-Definition set_us v s := {| py := py s; pmo := pmo s; pd := pd s; ph := ph s; pmi := pmi s; psec := psec s; pus := Some v; pam := pam s |}.
-Definition set_am s := {| py := py s; pmo := pmo s; pd := pd s; ph := ph s; pmi := pmi s; psec := psec s; pus := pus s; pam := true |}.
+                pus : option Z; pam : bool; pdoy : option Z; pwd : bool }.
+Definition pst0 : pst := {| py := None; pmo := None; pd := None; ph := None; pmi := None; psec := None; pus := None; pam := false;
+                            pdoy := None; pwd := false |}.
+Definition set_y v s := {| py := Some v; pmo := pmo s; pd := pd s; ph := ph s; pmi := pmi s; psec := psec s; pus := pus s; pam := pam s; pdoy := pdoy s; pwd := pwd s |}.
+Definition set_mo v s := {| py := py s; pmo := Some v; pd := pd s; ph := ph s; pmi := pmi s; psec := psec s; pus := pus s; pam := pam s; pdoy := pdoy s; pwd := pwd s |}.
+Definition set_d v s := {| py := py s; pmo := pmo s; pd := Some v; ph := ph s; pmi := pmi s; psec := psec s; pus := pus s; pam := pam s; pdoy := pdoy s; pwd := pwd s |}.
+Definition set_h v s := {| py := py s; pmo := pmo s; pd := pd s; ph := Some v; pmi := pmi s; psec := psec s; pus := pus s; pam := pam s; pdoy := pdoy s; pwd := pwd s |}.
+Definition set_mi v s := {| py := py s; pmo := pmo s; pd := pd s; ph := ph s; pmi := Some v; psec := psec s; pus := pus s; pam := pam s; pdoy := pdoy s; pwd := pwd s |}.
+Definition set_s v s := {| py := py s; pmo := pmo s; pd := pd s; ph := ph s; pmi := pmi s; psec := Some v; pus := pus s; pam := pam s; pdoy := pdoy s; pwd := pwd s |}.
+Definition set_us v s := {| py := py s; pmo := pmo s; pd := pd s; ph := ph s; pmi := pmi s; psec := psec s; pus := Some v; pam := pam s; pdoy := pdoy s; pwd := pwd s |}.
+Definition set_am s := {| py := py s; pmo := pmo s; pd := pd s; ph := ph s; pmi := pmi s; psec := psec s; pus := pus s; pam := true; pdoy := pdoy s; pwd := pwd s |}.
+Definition set_doy v s := {| py := py s; pmo := pmo s; pd := pd s; ph := ph s; pmi := pmi s; psec := psec s; pus := pus s; pam := pam s; pdoy := Some v; pwd := pwd s |}.
+Definition set_wd s := {| py := py s; pmo := pmo s; pd := pd s; ph := ph s; pmi := pmi s; psec := psec s; pus := pus s; pam := pam s; pdoy := pdoy s; pwd := true |}.
 
 (* literalParser(literal).  A non-empty all-space remainder with a non-space literal would index an empty string
    in the Go code; that state is unreachable from ParseDateWithFormat (the date is trimmed) and is a failure here. *)
@@ -84,6 +87,26 @@ Definition hms (chars : list N) : option (Z * Z * Z * list N) :=     (* hh:mm:ss
   | None => None
   end.
 
+(* month and weekday names: the input is lower-cased and compared with the lower-cased English names *)
+Fixpoint lower_eq_prefix (name chars : list N) : bool :=      (* strings.HasPrefix(lower(chars), lower(name)) *)
+  match name, chars with
+  | [], _ => true
+  | x :: n', y :: c' => (lower x =? lower y)%N && lower_eq_prefix n' c'
+  | _ :: _, [] => false
+  end.
+Fixpoint find_month (abbrev : bool) (chars : list N) (m : nat) (fuel : nat) : option (Z * nat) :=
+  match fuel with
+  | O => None
+  | S k =>
+      let name := if abbrev then firstn 3 (month_name (Z.of_nat m)) else month_name (Z.of_nat m) in
+      if lower_eq_prefix name chars then Some (Z.of_nat m, length name) else find_month abbrev chars (S m) k
+  end.
+Fixpoint find_weekday (chars : list N) (w : nat) (fuel : nat) : bool :=
+  match fuel with
+  | O => false
+  | S k => if lower_eq_prefix (firstn 3 (weekday_name (Z.of_nat w))) chars then true else find_weekday chars (S w) k
+  end.
+
 Inductive tok := TLit (c : N) | TSpec (c : N).
 
 Definition num_field (tn : option (Z * list N)) (lo hi : option Z) (f : Z -> pst -> pst) (st : pst) : option (pst * list N) :=
@@ -115,6 +138,17 @@ Definition parse_spec (c : N) (st : pst) (chars : list N) : option (pst * list N
              | None => None
              end
   | 37%N  => match lit 37 chars with Some r => Some (st, r) | None => None end
+  (* %b: at least three characters, a month abbreviation *)
+  | 98%N  => if (length chars <? 3)%nat then None
+             else match find_month true (firstn 3 chars) 1 12 with Some (m, _) => Some (set_mo m st, skipn 3 chars) | None => None end
+  (* %M: a full month name is a prefix *)
+  | 77%N  => match find_month false chars 1 12 with Some (m, k) => Some (set_mo m st, skipn k chars) | None => None end
+  (* %D: a number, then two characters are dropped whatever they are *)
+  | 68%N  => match take_number chars with Some (v, rest) => Some (set_d v st, skipn 2 rest) | None => None end
+  | 106%N => num_field (take_number chars) None None set_doy st
+  (* %a: a weekday abbreviation, parsed and ignored *)
+  | 97%N  => if (length chars <? 3)%nat then None
+             else if find_weekday (firstn 3 chars) 0 7 then Some (set_wd st, skipn 3 chars) else None
   | _ => None
   end.
 
@@ -130,11 +164,11 @@ Fixpoint run (toks : list tok) (st : pst) (target : list N) : option pst :=
   | t :: r => match step t st (ltrim target) with Some (st', rest) => run r st' rest | None => None end
   end.
 
-(* parsersFromFormatString.  Specifier classes: modelled here; valid in the Go table but not modelled (a b D j M);
-   everything else is unknown or unsupported there and makes the function fail *)
+(* parsersFromFormatString.  Specifiers outside the modelled set are unknown (%Q ...) or unsupported in the Go table
+   (%U %u %V %v %W %w %X %x map to nil) and make the function fail: STR_TO_DATE returns NULL for them *)
 Definition modelled (c : N) : bool :=
-  existsb (N.eqb c) [89; 121; 109; 99; 100; 101; 72; 107; 104; 73; 108; 105; 115; 83; 102; 112; 84; 114; 37]%N.
-Definition other_valid (c : N) : bool := existsb (N.eqb c) [97; 98; 68; 106; 77]%N.
+  existsb (N.eqb c) [89; 121; 109; 99; 100; 101; 72; 107; 104; 73; 108; 105; 115; 83; 102; 112; 84; 114; 37; 98; 77; 68; 106; 97]%N.
+Definition other_valid (c : N) : bool := false.
 
 Inductive fres := FOk (toks : list tok) | FFail | FUnmodelled.
 Fixpoint tokens (fmt : list N) : fres :=
@@ -162,14 +196,20 @@ Definition ampm_conflict (toks : list tok) : bool :=
 
 Definition is_empty (s : pst) : bool :=
   match py s, pmo s, pd s, ph s, pmi s, psec s, pus s with
-  | None, None, None, None, None, None, None => negb (pam s)
+  | None, None, None, None, None, None, None => negb (pam s) && negb (pwd s) && (match pdoy s with None => true | Some _ => false end)
   | _, _, _, _, _, _, _ => false
   end.
 Definition dflt (o : option Z) : Z := match o with Some v => v | None => 0 end.
 
 (* time.Date(year, month, day, hours, minutes, seconds, nanoseconds, UTC): everything is normalised *)
 Definition eval (s : pst) : date * Z :=
-  add_us (go_date (dflt (py s)) (dflt (pmo s)) (dflt (pd s))) 0
+  (* a day of the year replaces month and day: time.Date(year, January, 0).AddDate(0, 0, doy) *)
+  let '(y, m, d) :=
+    match pdoy s with
+    | Some n => let '(_, m', d') := add_days (go_date (dflt (py s)) 1 0) n in (dflt (py s), m', d')
+    | None => (dflt (py s), dflt (pmo s), dflt (pd s))
+    end in
+  add_us (go_date y m d) 0
          (((dflt (ph s) * 60 + dflt (pmi s)) * 60 + dflt (psec s)) * 1000000 + dflt (pus s)).
 
 Inductive sres := SNull | SVal (d : date) (tod : Z) | SUnmodelled.
